@@ -8,11 +8,12 @@ import NasVerif.Driver.PcoOps
 import NasVerif.Driver.Conv17Ops
 import NasVerif.Driver.ConvertOps
 import NasVerif.Driver.QosOps
+import NasVerif.Driver.UePolicyOps
 open NasVerif NasVerif.Driver
 
 def step (line : String) : String :=
   let toks := (line.trimAscii.toString.splitOn " ").filter (· ≠ "")
-  match (codecOp toks <|> specOp toks <|> counterOp toks <|> accOp toks <|> secOp toks <|> idgOp toks <|> pcoOp toks <|> conv17Op toks <|> convOp toks <|> qosOp toks) with
+  match (codecOp toks <|> specOp toks <|> counterOp toks <|> accOp toks <|> secOp toks <|> idgOp toks <|> pcoOp toks <|> conv17Op toks <|> convOp toks <|> qosOp toks <|> upcOp toks) with
   | some r => r
   | none => "bad-op"
 
